@@ -136,10 +136,20 @@ struct SinglePass {
 };
 
 enum Src { S_PTR = 0, S_STDVEC, S_DEQUE, S_LIST, S_FWD, S_INPUT, S_MOVE_PTR, S_MOVE_LIST, S_COUNT };
+/// vectors only: a contiguous range whose value_type is NOT T but converts to it (a byte-wise fast path selected on
+/// "pointer range of a trivially copyable T" alone would copy the wrong bytes)
+constexpr int S_CONV = S_COUNT;
+constexpr int S_COUNT_VEC = S_COUNT + 1;
 inline const char *src_name(int s) {
-  static const char *n[] = {"ptr", "stdvec", "deque", "list", "fwdlist", "input", "move_ptr", "move_list"};
-  return s >= 0 && s < S_COUNT ? n[s] : "?";
+  static const char *n[] = {"ptr", "stdvec", "deque", "list", "fwdlist", "input", "move_ptr", "move_list", "conv"};
+  return s >= 0 && s < S_COUNT_VEC ? n[s] : "?";
 }
+template <class T>
+struct ConvTo {
+  long long pad;  // a different size than most T
+  int x;
+  operator T() const { return vf::El<T>::make(x); }
+};
 
 /// Build a range over the given values with iterator kind `src` and hand (first, last) to f.
 template <class T, class F>
@@ -183,6 +193,13 @@ inline void with_range_t(int src, const std::vector<int> &vals, F &&f) {
       for (int x : vals) a.push_back(E::make(x));
       if (src == S_LIST) f(a.begin(), a.end());
       else f(std::make_move_iterator(a.begin()), std::make_move_iterator(a.end()));
+      break;
+    }
+    case S_CONV: {
+      std::vector<ConvTo<T> > a;
+      for (int x : vals) a.push_back(ConvTo<T>{0x5151515151515151LL, x});
+      a.push_back(ConvTo<T>{0, -555});
+      f(static_cast<const ConvTo<T> *>(a.data()), static_cast<const ConvTo<T> *>(a.data() + vals.size()));
       break;
     }
     case S_FWD: {
